@@ -62,6 +62,9 @@ def project(weights,
   Returns:
     'weights' with monotonicity constraints and normalization applied to it.
   """
+  if monotonicities is None:
+    # No monotonicity constraints: same as 0 for every input dimension.
+    monotonicities = [0] * weights.shape[0]
   verify_hyperparameters(
       weights_shape=weights.shape,
       monotonicities=monotonicities,
@@ -152,7 +155,7 @@ def assert_constraints(weights,
     mode.
   """
   asserts = []
-  if any(monotonicities):
+  if monotonicities is not None and any(monotonicities):
     # Create constant specifying shape explicitly because otherwise due to
     # weights shape ending with dimesion of size 1 broadcasting will hurt us.
     monotonicities_constant = tf.constant(
